@@ -33,6 +33,7 @@ def generic(c, hprop, prop_files, lemma_files, what_tie, rule, nontrivial, assum
                 c.violations.append((path, " no-failing-input-found"))
             else:
                 res = c.compare(cases, model, nontrivial)
+                c.search_deeper(hprop, extra_args, res, nontrivial)
                 c.classify(res, coq_ok, what_tie)
     if not coq_ok and not c.violations:
         path = c.write_replay("proof", {"kind": "proof-obligation-broken", "notes": c.notes})
